@@ -564,6 +564,13 @@ func c05Worker(w *W) {
 		for _, policy := range []string{"Block", "Discard", "DiscardOldest"} {
 			for _, cap := range []int{100, 101} {
 				occ := []int{0, 1, cap / 2, cap - 1, cap, 2 + r.IntN(cap-3), 2 + r.IntN(cap-3)}
+				if w.Spec.Tier == "thorough" {
+					// every buffer occupancy 0..capacity at the moment of Stop, as the property's quantifier says
+					occ = occ[:0]
+					for k := 0; k <= cap; k++ {
+						occ = append(occ, k)
+					}
+				}
 				for _, k := range occ {
 					for _, state := range []string{"idle", "mid-append", "slow"} {
 						ci++
@@ -708,8 +715,9 @@ func init() {
 		Assumptions: []string{"no log call is in progress when Stop/Destroy is called (statement's precondition)", "rolling-boundary interleavings are those the scheduler produced around real 1 s boundaries (rotations observed are reported)"},
 		Run: func(d *D) {
 			var specs []Spec
-			for i := 0; i < 6; i++ {
-				s := d.NewSpec("async", fmt.Sprintf("async-%d", i), i, 6)
+			na := int(d.Pick(6, 16))
+			for i := 0; i < na; i++ {
+				s := d.NewSpec("async", fmt.Sprintf("async-%d", i), i, na)
 				specs = append(specs, s)
 			}
 			if !d.Quick() {
@@ -753,6 +761,9 @@ func init() {
 			}
 			outs := d.RunWorkers(specs, 16)
 			d.raceVerdict(outs)
+			if !d.Quick() {
+				d.Extra["exhaustive_spaces"] = []string{"Stop of a directly built AsyncLogger: every occupancy 0..capacity x {Block, Discard, DiscardOldest} x capacity {100, 101} x worker {idle, parked inside an appender, slow}"}
+			}
 		},
 	})
 }
